@@ -356,6 +356,16 @@ class Scen:
                             first = next((t for (t, a, b) in self.deliv.get(c, []) if b > s), None)
                             if first is not None and first > t_acq:
                                 late = True
+                # ... or the response it was given itself arrived only after this request owned the connection (the
+                # answers on this connection were shifted by an unsolicited one that arrived while an earlier request was
+                # outstanding): no client can tell that from its own answer either
+                own = int(stamp[1:]) if stamp.startswith("R") and stamp[1:].isdigit() else None
+                for (t_acq, c) in acqs:
+                    for (s, e, jj) in self.sent_map.get(c, []):
+                        if own is not None and jj == own:
+                            first = next((t for (t, a, b) in self.deliv.get(c, []) if b > s), None)
+                            if first is not None and first > t_acq:
+                                late = True
                 if late:
                     continue  # stray bytes arrived after the request owned the connection: indistinguishable from its answer
                 kind = "stale-bytes-delivered-as-response" if stamp.startswith("STALE") else "response-of-another-request"
